@@ -1,7 +1,13 @@
 import Ln.Basic
 namespace LnDrv
 open Ln
-def parseBytes (s : String) : List Nat := if s = "-" then [] else (s.splitOn ",").filterMap (·.toNat?)
+/-- comma separated bytes; a token `n*b` stands for `n` repetitions of byte `b` -/
+def parseBytes (s : String) : List Nat := if s = "-" then [] else
+  (s.splitOn ",").flatMap fun t =>
+    match t.splitOn "*" with
+    | [n, b] => List.replicate n.toNat! b.toNat!
+    | [b] => match b.toNat? with | some x => [x] | none => []
+    | _ => []
 partial def loop (h : IO.FS.Stream) : IO Unit := do
   let line ← h.getLine
   if line.isEmpty then return ()
